@@ -83,6 +83,10 @@ def compile_cxx(src, name, std="c++14", opt="-O1", san="asan", compiler="g++", f
         cmd += ASAN_FLAGS + UBSAN_FLAGS
     elif san == "asan-only":
         cmd += ASAN_FLAGS
+    elif san == "asan-ubrecover":
+        # UBSan's bounds/null checks in recover mode: a report calls __ubsan_on_report (engine/report.hpp sets the sanitizer
+        # flag) and execution continues, so the explorer can attribute it to the (state, operation) instead of dying
+        cmd += ASAN_FLAGS + ["-fsanitize=bounds,null", "-fsanitize-recover=bounds,null"]
     elif san == "none":
         pass
     else:
